@@ -33,9 +33,13 @@ SmallS(j) == SmallS2(j, Dof(j), MulN(Dof(j), G), Small(j, 7), Kof(j))
 SmallR3(j, d, pt, r0, e, s) == << Forge4("small-r", pt, e, r0, s, VerifyRS(pt, e, r0, s)), Forge4("r+n", pt, e, BAdd(r0, NN), s, FALSE) >>
 SmallR2(j, d, pt, r0, k) == SmallR3(j, d, pt, r0, BSubMod(r0, MulN(k, G)[1], NN), SignS(d, k, r0))
 SmallR(j) == SmallR2(j, Dof(j), MulN(Dof(j), G), Small(j, 8), Kof(j))
+\* [s]G + [t]P = O:  t = -s d^-1, r = t - s, e = r  -- only the holder of d can build it; there is no x1, so it is not a valid signature
+InfCase3(j, pt, r, s) == << Forge4("sum-is-infinity", pt, r, r, s, VerifyRS(pt, r, r, s)) >>
+InfCase2(j, d, pt, s, t) == InfCase3(j, pt, BSubMod(t, s, NN), s)
+InfCase(j) == InfCase2(j, Dof(j), MulN(Dof(j), G), Small(j, 12), BSubMod(BZero, BMulMod(Small(j, 12), InvN(Dof(j)), NN), NN))
 TZero2(j, pt, r, s) == << Forge4("t=0", pt, BSubMod(r, MulN(s, G)[1], NN), r, s, FALSE) >>
 TZero(j) == TZero2(j, MulN(Dof(j), G), Kof(j), BSub(NN, Kof(j)))
 Init == pidx = 0 /\ pout = <<>>
-Next == pidx < NK /\ pidx' = pidx + 1 /\ pout' = <<Honest(pidx + 1)>> \o SmallS(pidx + 1) \o SmallR(pidx + 1) \o TZero(pidx + 1)
+Next == pidx < NK /\ pidx' = pidx + 1 /\ pout' = <<Honest(pidx + 1)>> \o SmallS(pidx + 1) \o SmallR(pidx + 1) \o TZero(pidx + 1) \o InfCase(pidx + 1)
 Emit == \A j \in 1..Len(pout) : PrintT(<<"PLAN", ToJson(pout[j])>>)
 =============================================================================
